@@ -103,6 +103,7 @@ var stubClassByURL = map[string]string{
 	stubkm.MACURL: classes.MAC, stubkm.AEADURL: classes.AEAD, stubkm.DAEADURL: classes.DAEAD,
 	stubkm.SigPrivURL: classes.Signature, stubkm.SigPubURL: classes.Signature,
 	stubkm.HybPrivURL: classes.Hybrid, stubkm.HybPubURL: classes.Hybrid,
+	kmsEnvelopeURL: classes.AEAD,
 }
 
 // ---------------------------------------------------------------------------
@@ -512,6 +513,12 @@ func (w *world) exercise(h *keyset.Handle, sh *shape, written []string, ctx stri
 	publicOnly := strings.HasSuffix(keyTypeName(primaryKey), ".PublicKey") || sh.urls[sh.primary] == stubkm.SigPubURL || sh.urls[sh.primary] == stubkm.HybPubURL
 
 	for _, class := range w.classesOf(sh, written) {
+		if class == classes.AEAD && kmsUnsafe(h) {
+			// a storage fault put an absurd size into the DEK template of a KMS-envelope key: using the primitive would ask
+			// the allocator for that much key material on every Encrypt
+			core.CountGlobal("kms-envelope-dek-size-too-large-to-exercise")
+			continue
+		}
 		if publicOnly {
 			// only the public half was stored: build and poke the public-side primitives
 			ok := false
